@@ -591,11 +591,13 @@ class PhaseField(_Simu):
 
         Fd = self.Get_K_C_M_F(problemType)[3]
         solverTypes = Models.PhaseField.SolverType
-        if Fd.count_nonzero() == 0 and self.phaseFieldModel.solver in [
-            solverTypes.History,
-            solverTypes.HistoryDamage,
-        ]:
-            # No driving force: Kd d = 0 -> d = 0.
+        if (
+            Fd.count_nonzero() == 0
+            and self.phaseFieldModel.solver
+            in [solverTypes.History, solverTypes.HistoryDamage]
+            and len(self.Bc_dofs_Dirichlet(problemType)) == 0
+        ):
+            # No driving force and no prescribed damage: Kd d = 0 -> d = 0.
             # With AT1 and psi+ = 0 everywhere (first step, zero load, pure compression) the reaction
             # term vanishes too, Kd is the singular pure-Neumann diffusion matrix and a direct
             # solver returns NaN.
